@@ -8,6 +8,8 @@
 (*   C  files straddling MaxSmallFileSize x ranges over numbers around the file length                               *)
 (*   D  missing files, directories (IndexNames / GenerateIndexPages), traversal attempts, PathRewrite route          *)
 (*   E  (thorough) options Compress/IndexNames/GenerateIndexPages x read via Read / WriteTo x route fs/fsrw/file     *)
+(*   V  FS.PathRewrite = NewVHostPathRewriter(0): Host header values ("..", ".", "a", ...) x targets x index options; *)
+(*      the parent of the root holds an index.html (file OUTIDX) and the sentinel                                    *)
 (*   F  Accept-Encoding: gzip on/off x Compress on/off x Range, mixed on one handler (plain and compressed cache)     *)
 EXTENDS FileServe, Json, IOUtils, SequencesExt
 
@@ -19,9 +21,11 @@ CONSTANTS Tier,        \* "quick" | "thorough"
 M == {"GET", "HEAD"}
 Thorough == Tier = "thorough"
 
-TreeRec == [lens |-> SetToSortSeq(Lens \cup BigLens, <), idxlen |-> 3, outlen |-> 5]
+\* many = number of (empty) files in directory m/: its generated index page is about 16 KiB (> MaxSmallFileSize)
+TreeRec == [lens |-> SetToSortSeq(Lens \cup BigLens, <), idxlen |-> 3, outlen |-> 5, alen |-> 2, pidxlen |-> 4, many |-> 120]
 
-RqE(path, tgt, m, r, ae) == [path |-> path, tgt |-> tgt, method |-> m, range |-> r, ae |-> ae]
+RqH(path, tgt, m, r, ae, host) == [path |-> path, tgt |-> tgt, method |-> m, range |-> r, ae |-> ae, host |-> host]
+RqE(path, tgt, m, r, ae) == RqH(path, tgt, m, r, ae, "h")
 Rq(path, tgt, m, r) == RqE(path, tgt, m, r, FALSE)
 FileRq(n, m, r) == Rq("/" \o FName(n), FName(n), m, r)
 Opt(route, ab, co, ix, ge, via) == [route |-> route, abr |-> ab, compress |-> co, idx |-> ix, gen |-> ge, via |-> via]
@@ -59,7 +63,7 @@ FamC == { Cs(Opt("fs", TRUE, FALSE, FALSE, FALSE, via), <<FileRq(n, "GET", r), F
 \* ---- D: paths
 FewRanges == {NoRange, Rg("ab", Num(0), Num(0), "bytes=0-0"), Rg("-n", NoNum, Num(1), "bytes=-1")}
 MissingPaths == {"/nofile", "/d/nofile", "/f9", "/f3x", "/index.html"}
-DirPaths == {"/", "/d", "/d/", "/e", "/e/"}
+DirPaths == {"/", "/d", "/d/", "/e", "/e/", "/m", "/m/", "/a", "/a/"}
 Sentinel == "OUTSIDE-c08-sentinel.bin"
 OddPaths == { "/../" \o Sentinel, "/%2e%2e/" \o Sentinel, "/%2E%2E/" \o Sentinel, "/.%2e/" \o Sentinel, "//../" \o Sentinel,
               "/d/../../" \o Sentinel, "/d/%2e%2e/%2e%2e/" \o Sentinel, "/..\\" \o Sentinel, "/..%5c" \o Sentinel,
@@ -76,6 +80,15 @@ FamD == { Cs(o, <<Rq(p, "none", m, r), Rq(p, "none", m, r)>>) : o \in PathOpts, 
         \cup { Cs(o, <<Rq(p, "any", m, r), Rq(p, "any", m, r)>>) : o \in PathOpts, p \in OddPaths, m \in M,
                   r \in (IF Thorough THEN FewRanges ELSE {NoRange}) }
         \cup { Cs(o, <<Rq("/" \o IndexFile, IndexFile, m, r)>>) : o \in PathOpts, m \in M, r \in FewRanges }
+        \cup { Cs(Opt("file", TRUE, TRUE, FALSE, TRUE, "read"), <<Rq(p, "dir", "GET", r), Rq(p, "dir", "HEAD", r), Rq(p, "dir", "GET", r)>>) :
+                 p \in DirPaths, r \in FewRanges }                                   \* ctx.File(directory): rootFS generates index pages
+
+\* ---- V: virtual-host rewriter
+VHosts   == {"..", ".", "a", "a/..", "..%2f", "h", "...", "a.."} \cup (IF Thorough THEN {"%2e%2e", "..\\", "d", "m", ".a", "-"} ELSE {})
+VTargets == {"/", "/a/..", "/x", "/index.html", "/f3", "/.."} \cup (IF Thorough THEN {"//", "/d/", "/a/../..", "/%2e%2e", "/./", "/m/"} ELSE {})
+FamV == { Cs(Opt("vhost", TRUE, co, ix, ge, "read"), <<RqH(p, "any", "GET", r, FALSE, h), RqH(p, "any", "HEAD", r, FALSE, h)>>) :
+            co \in (IF Thorough THEN BOOLEAN ELSE {FALSE}), ix \in BOOLEAN, ge \in BOOLEAN, h \in VHosts, p \in VTargets,
+            r \in (IF Thorough THEN FewRanges ELSE {NoRange, Rg("ab", Num(0), Num(0), "bytes=0-0")}) }
 
 \* ---- E: options x read path x route, and ctx.File
 OptToks == NumToks(OptNums)
@@ -104,10 +117,10 @@ FamFn(n) == IF Thorough
 FamF == UNION { FamFn(n) : n \in GzLens }
         \cup { Cs(Opt("fs", TRUE, TRUE, FALSE, TRUE, "read"), <<RqE(p, "dir", "GET", NoRange, TRUE), RqE(p, "dir", "GET", NoRange, FALSE)>>) : p \in DirPaths }
 
-All == SetToSeq(FamA \cup FamB \cup FamC \cup FamD \cup FamE \cup FamF)
+All == SetToSeq(FamA \cup FamB \cup FamC \cup FamD \cup FamE \cup FamF \cup FamV)
 
 ASSUME RangeSemSane(Toks \cup BigToks, Lens \cup BigLens)
-ASSUME PrintT(<<"@@FAMILIES", Cardinality(FamA), Cardinality(FamB), Cardinality(FamC), Cardinality(FamD), Cardinality(FamE), Cardinality(FamF)>>)
+ASSUME PrintT(<<"@@FAMILIES", Cardinality(FamA), Cardinality(FamB), Cardinality(FamC), Cardinality(FamD), Cardinality(FamE), Cardinality(FamF), Cardinality(FamV)>>)
 ASSUME ndJsonSerialize(IOEnv.VERIF_OUT,
          [i \in 1 .. Len(All) |-> [id |-> i, route |-> All[i].route, abr |-> All[i].abr, compress |-> All[i].compress,
                                    idx |-> All[i].idx, gen |-> All[i].gen, via |-> All[i].via, tree |-> TreeRec,
